@@ -215,7 +215,9 @@ pub fn run(tier: Tier) -> Report {
                         check_scale("k_0 on the equator", p.lon_c + dl, 0., k0);
                     }
                 }
-                check_origin("(lon_0, 0)", get("lon_0", 0.), 0.);
+                if get("lat_0", 0.) == 0. {
+                    check_origin("(lon_0, 0)", get("lon_0", 0.), 0.);
+                }
             }
             "webmerc" => {
                 for pt in &pts {
